@@ -259,6 +259,8 @@ def check_C07(chk: Check, replay) -> None:
     if not tlc.tlc_ok(res):
         raise Machinery(f"MC_Stream failed:\n{res['out'][-2000:]}")
     chk.add_tlc("Stream/MC_Stream.cfg", res)
+    from .checks_codec import model_check_encoder_machine
+    model_check_encoder_machine(chk)       # AppendOnly, SinkIsPrefix: staged bytes are never visible early
     n = 4000 if chk.tier == "thorough" else 320
     K = 16
     args = [(os.path.join(chk.scratch, f"st{i}.json"), i * n // K, (i + 1) * n // K, chk.seed + 1) for i in range(K)]
